@@ -50,6 +50,47 @@ fn basis(rep: &mut Report) {
 }
 
 // ---------------------------------------------------------------------------------------------
+// 1b. worst-case accumulation: inverse NTT of constant and two-level inputs over the whole range of
+// values its callers can supply (|x| <= (L+1) q). Output coefficient 0 accumulates all 256 inputs without
+// reduction, so a constant input is the extreme case for a 32-bit overflow.
+
+fn inv_ntt_levels(ctx: &Ctx, rep: &mut Report) {
+    let lim: i64 = 9 * Q;
+    let step: i64 = if ctx.quick() { 16 } else { 1 };
+    let off = (hash_of(&(ctx.seed, "c18-levels")) % step as u64) as i64;
+    let n = (2 * lim / step) as u64;
+    run_sweep(
+        rep,
+        "inv_ntt_constant_inputs",
+        n,
+        !ctx.quick(),
+        |i, st| {
+            let v = -lim + off + i as i64 * step;
+            st.eval();
+            st.nontrivial_enumerated += 1;
+            let x: P32 = [v as i32; 256];
+            let out = g("inv_ntt", || hk::inv_ntt::<1>(&[x]))?[0];
+            if i64::from(out[0]) != rf::mod_q(v) || out[1..].iter().any(|&c| c != 0) {
+                return Err(Fail::new("inv_ntt_constant:wrong", format!("inv_ntt of the constant input {v} gives coefficient 0 = {} (expected {}), other coefficients {}", out[0], rf::mod_q(v), if out[1..].iter().any(|&c| c != 0) { "non-zero" } else { "zero" })));
+            }
+            // two levels: first half v, second half the mirrored value -> exercises the last-layer subtraction
+            if i % 8 == 0 {
+                let w = (lim - (v + lim) % (2 * lim)).clamp(-lim, lim);
+                let y: P32 = core::array::from_fn(|j| if j < 128 { v as i32 } else { w as i32 });
+                let out = g("inv_ntt", || hk::inv_ntt::<1>(&[y]))?[0];
+                let expect = rf::ntt_inv(&to_i64(&y));
+                if to_i64(&out) != expect {
+                    let k = (0..256).find(|&j| i64::from(out[j]) != expect[j]).unwrap_or(0);
+                    return Err(Fail::new("inv_ntt_two_level:wrong", format!("inv_ntt of the two-level input ({v}, {w}) gives coefficient {k} = {}, expected {}", out[k], expect[k])));
+                }
+            }
+            Ok(())
+        },
+        |i| json!({"v": -lim + off + i as i64 * step}),
+    );
+}
+
+// ---------------------------------------------------------------------------------------------
 // 2. challenge products composed as the crate composes them
 
 #[derive(Clone, Debug, Hash, Serialize, Deserialize)]
@@ -265,6 +306,7 @@ pub fn run(ctx: &Ctx, rep: &mut Report) {
     rep.assume("absence of 32-bit overflow is observed through the checked profile (overflow-checks = on: any wrapping add/sub/mul panics) and through agreement with the exact product in the plain profile");
     rep.assume("'every vector in range' is sampled plus structured; for ML-DSA-44 the aligned-residue construction does not reach 2^31, so for that set the claim rests on the bound 256*(q-1) < 2^31 established by the reduction at the inverse-NTT copy-in");
     basis(rep);
+    inv_ntt_levels(ctx, rep);
     run_generated(ctx, rep, "challenge_products", ctx.n(300_000, 5_000_000), prod_strategy, check_prod);
     run_generated(
         ctx,
